@@ -3,6 +3,9 @@ C06 — reorg detection and rewinding: reorgdetector (AddBlockToTrack, detectReo
 of reorged tracked blocks, reload at start) and sync/evmdriver.go (handleNewBlock: track a non-finalized block, then
 process it; handleReorg: rewind the store, then resume from the last stored block + 1), per subscriber.
 A block is a pair (number, version): the version stands for the block hash (a replaced block gets a new version).
+Version 0 stands for a block WITHOUT events of interest: the downloader does not deliver such a block, so the syncer
+neither stores nor tracks it and the tracked list is sparse (the normal situation on L1). Which event-less block a fork
+puts in the place of another is invisible to the syncer, so they all share version 0.
 Sequential schedule: an operation completes before the next one starts (the window between the driver's
 acknowledgement and the detector's removal of the tracked range is the subject of known finding F5, not of this model).
 -/
@@ -11,13 +14,14 @@ namespace Aggkit.ReorgSync
 abbrev Blk := Nat × Nat
 
 structure Sub where
-  store : List Blk := []      -- blocks in the syncer's store, ascending and contiguous from 1
+  store : List Blk := []      -- blocks in the syncer's store (the delivered ones), ascending by number
   tracked : List Blk := []    -- the detector's tracked headers of this subscriber, ascending by number
   deriving Repr, DecidableEq
 
 structure Sys where
   chain : List Nat := []      -- version of block i+1 on the canonical chain
   fin : Nat := 0              -- finalized block number
+  maxV : Nat := 0             -- the largest version handed out so far (hashes do not repeat: versions are fresh)
   a : Sub := {}
   b : Sub := {}
   deriving Repr, DecidableEq
@@ -35,14 +39,20 @@ def trackAdd (tracked : List Blk) (b : Blk) : List Blk :=
   if b ∈ tracked then tracked
   else tracked.filter (fun t => decide (t.1 < b.1)) ++ [b] ++ tracked.filter (fun t => decide (b.1 < t.1))
 
-/-- the driver receives the next block the chain has at this moment and handles it (`handleNewBlock`) -/
+/-- the first block with events in `l`, whose head is block number `n` -/
+def findFrom : List Nat → Nat → Option Blk
+  | [], _ => none
+  | v :: rest, n => if v = 0 then findFrom rest (n + 1) else some (n, v)
+
+/-- the next block the downloader delivers when asked to start from block `n` (≥ 1): the first one with events -/
+def nextDeliv (chain : List Nat) (n : Nat) : Option Blk := findFrom (chain.drop (n - 1)) n
+
+/-- the driver receives the next block (with events) the chain has at this moment after the last one it stored, and
+    handles it (`handleNewBlock`) -/
 def stepOnce (chain : List Nat) (fin : Nat) (s : Sub) : Option Sub :=
-  let n := lastNum s.store + 1
-  match canon chain n with
+  match nextDeliv chain (lastNum s.store + 1) with
   | none => none
-  | some v =>
-    let b : Blk := (n, v)
-    some { store := s.store ++ [b], tracked := if n ≤ fin then s.tracked else trackAdd s.tracked b }
+  | some b => some { store := s.store ++ [b], tracked := if b.1 ≤ fin then s.tracked else trackAdd s.tracked b }
 
 def stepN (chain : List Nat) (fin : Nat) : Nat → Sub → Sub
   | 0, s => s
@@ -88,7 +98,7 @@ def detectLoopCrash (chain : List Nat) (fin : Nat) : List Blk → Sub → Sub
 def detectCrashSub (chain : List Nat) (fin : Nat) (s : Sub) : Sub := detectLoopCrash chain fin s.tracked s
 
 inductive Op where
-  | blk (ver : Nat)         -- the chain grows by one block (its version is fresh)
+  | blk (ver : Nat)         -- the chain grows by one block (version 0: no events; otherwise its version is fresh)
   | reorg (k : Nat)         -- blocks k.. leave the chain
   | fin (f : Nat)
   | stepA (n : Nat)
@@ -99,7 +109,7 @@ inductive Op where
   deriving Repr, DecidableEq
 
 def step (s : Sys) : Op → Sys
-  | .blk v => { s with chain := s.chain ++ [v] }
+  | .blk v => { s with chain := s.chain ++ [v], maxV := max s.maxV v }
   | .reorg k => { s with chain := s.chain.take (k - 1) }
   | .fin f => { s with fin := f }
   | .stepA n => { s with a := stepN s.chain s.fin n s.a }
